@@ -7,6 +7,7 @@ import StepupModel.Lemmas.ReadyDiscipline
 import StepupModel.Lemmas.SafeDiscipline
 import StepupModel.Lemmas.JobLoopLive
 import StepupModel.Generated.JobLoop
+import StepupModel.Lemmas.BuildWitness
 /-!
 # C10  Dispatch is exact: nothing ineligible starts, nothing eligible is left
 
@@ -418,6 +419,82 @@ and the return, this is the converse direction of the property on the builder si
 theorem phase_ends_only_after_an_empty_poll (s : JL) (hn : 1 ≤ s.njob) (h : (iter s).2 = .ret) :
     (iter s).1.polls = s.polls + 1 ∧ s.offers = [] ∧ s.running = [] ∧ (∀ i ∈ s.queue, i ∈ s.claimed) :=
   iter_ret_polled s hn h
+
+/-! ## The composed build phase: job loop × kernel (`B/Build.lean`, `Lemmas/Build*.lean`) -/
+
+open StepupModel.B.Build in
+/-- **Nothing ineligible starts, in the composed system**: whenever an event makes the loop start a step
+job, that event is a pass of the loop in which the kernel's `pop_next_job` (not draining) answered with a
+step that is eligible in the refreshed kernel state, and the new kernel state is that refreshed state with
+the step set CHECKING or RUNNING. -/
+theorem composed_start_is_a_dispatch (k0 : KState) (cfg : KConfig) (njob : Nat) (evs : List Ev) (e : Ev) (i : Nat)
+    (h : (run k0 cfg njob (evs ++ [e])).jl.started = (run k0 cfg njob evs).jl.started ++ [.step i]) :
+    ∃ key chk rj su n, e = .pass (some key) ∧ (run k0 cfg njob evs).draining = false ∧
+      (run k0 cfg njob evs).k.popNext (run k0 cfg njob evs).cfg (some key) =
+        .ok ((run k0 cfg njob (evs ++ [e])).k, .job key chk rj) ∧
+      (run k0 cfg njob evs).k.updateMeta (run k0 cfg njob evs).cfg = .ok su ∧ n ∈ su.nodes ∧ n.key = key ∧
+      su.eligible (run k0 cfg njob evs).cfg n = true ∧ chk = n.hasHash ∧
+      su.setStepState key (if chk = true then .checking else .running) = .ok (run k0 cfg njob (evs ++ [e])).k ∧
+      i = (run k0 cfg njob evs).assigned.length + 1 ∧
+      (run k0 cfg njob (evs ++ [e])).assigned = (run k0 cfg njob evs).assigned ++ [(i, key, chk)] :=
+  run_start_is_dispatch k0 cfg njob evs e i h
+
+open StepupModel.B.Build in
+/-- **Nothing eligible is left: a build phase that is not draining ends only when no step is eligible.**
+In the composed system, for `njob ≥ 1` (enforced by `ServeConfig`), from any kernel state and after any
+event sequence: if an event makes `job_loop` return while the scheduler is not draining, then that event is a
+pass in which `pop_next_job` answered "nothing", no task runs and none waits to be retired, the kernel state
+at that moment is the refreshed state, and no step is eligible in it. -/
+theorem phase_ends_only_when_nothing_is_eligible (k0 : KState) (cfg : KConfig) (njob : Nat) (hn : 1 ≤ njob)
+    (evs : List Ev) (e : Ev)
+    (h0 : (run k0 cfg njob evs).jl.status ≠ .returned)
+    (h1 : (run k0 cfg njob (evs ++ [e])).jl.status = .returned)
+    (hdr : (run k0 cfg njob evs).draining = false) :
+    e = .pass none ∧
+    (run k0 cfg njob (evs ++ [e])).jl.running = [] ∧ (run k0 cfg njob (evs ++ [e])).jl.done = [] ∧
+    (run k0 cfg njob evs).k.updateMeta (run k0 cfg njob evs).cfg = .ok (run k0 cfg njob (evs ++ [e])).k ∧
+    (∀ n ∈ (run k0 cfg njob (evs ++ [e])).k.nodes,
+      (run k0 cfg njob (evs ++ [e])).k.eligible (run k0 cfg njob evs).cfg n = false) ∧
+    NoEligible (run k0 cfg njob (evs ++ [e])).k (run k0 cfg njob evs).cfg :=
+  run_return_is_quiescent k0 cfg njob hn evs e h0 h1 hdr
+
+open StepupModel.B.Build in
+/-- **No lost wake-up, composed, under a named proviso**: if every event that happens while the loop is
+parked either keeps "no step is eligible" or sets the wake event (`ProvisoAlong`; proved for every event
+kind except the end of a promoted hash job that writes to the database and RPC requests other than
+`define`/`release`: `benign_wakesOrKeeps`), then a parked loop with a free slot and a scheduler that is not
+draining has no eligible step. -/
+theorem composed_no_lost_wakeup_partial (k0 : KState) (cfg : KConfig) (njob : Nat) (evs : List Ev)
+    (hp : ProvisoAlong (init k0 cfg njob) evs) (hpk : (run k0 cfg njob evs).parked = true) :
+    (run k0 cfg njob evs).jl.wake = false ∧
+    ((run k0 cfg njob evs).jl.running.length < njob → (run k0 cfg njob evs).draining = false →
+      NoEligible (run k0 cfg njob evs).k cfg) :=
+  no_lost_wakeup k0 cfg njob evs hp hpk
+
+open StepupModel.B.Build StepupModel.B.Build.Witness in
+/-- The proviso is necessary: a kernel-checked run (two slots) after which the loop is parked with a free
+slot, the wake event clear and the scheduler not draining, although step `B` is eligible: the end of a
+promoted hash job (started by an `amend` of the still running step A) confirmed B's input and set no wake
+event.  The real code behaves the same (`harness/witness/build_promoted_hash_wakeup.py`): the dispatch of B
+waits for the next wake-up, at the latest the end of A (`parked_loop_is_woken_by_the_end_of_a_task`); the
+phase cannot end meanwhile (`phase_ends_only_when_nothing_is_eligible`).  A delay, not a violation of the
+property as stated. -/
+theorem composed_no_lost_wakeup_negation :
+    s11.parked = true ∧ s11.jl.wake = false ∧ s11.jl.running.length < 2 ∧ s11.draining = false ∧
+    s11.jl.running = [.step 1] ∧
+    ¬ NoEligible s11.k {} ∧ NoEligible s10.k {} ∧ ¬ WakesOrKeeps s10 lastEv ∧ ¬ Benign s10 lastEv :=
+  promoted_hash_job_delays_dispatch
+
+open StepupModel.B.Build in
+/-- Without any proviso: a parked loop always has a running task, and the end of any running task takes
+it out of `wait()`. -/
+theorem parked_loop_is_woken_by_the_end_of_a_task (k0 : KState) (cfg : KConfig) (njob : Nat) (evs : List Ev)
+    (hpk : (run k0 cfg njob evs).parked = true) :
+    ((run k0 cfg njob evs).jl.wake = false ∧ (run k0 cfg njob evs).jl.done = [] ∧
+      (run k0 cfg njob evs).jl.running ≠ []) ∧
+    (∀ j rs, StepupModel.B.JobLoop.Job.step j ∈ (run k0 cfg njob evs).jl.running →
+      (step (run k0 cfg njob evs) (.finish j rs)).parked = false) :=
+  ⟨parked_loop_has_a_running_task k0 cfg njob evs hpk, (end_of_running_job_unparks _ hpk).1⟩
 
 /-- Obligations on the source (tables regenerated by `ast` on every run): the events that the
 model treats as setting the wake event do so in the code: a finished task (`_task_done`), a retired
